@@ -284,6 +284,17 @@ def reach_lookalike(k: int, via: int) -> int:
 SD_NMIN = 1 if THOROUGH else 2     # quick tier: two rows (one row exercises no chunking); thorough: 1..2
 
 
+_INT_SIZE = {'int8': 1, 'uint8': 1, 'int16': 2, 'uint16': 2, 'int32': 4, 'uint32': 4}
+
+
+def _same_bytes(got, want):
+    """Two slot dtypes that give the same record bytes for every source value: equal, or integer types of one size
+    (a cast between integer types keeps the low-order bytes, whatever the signedness) - a difference there cannot be
+    observed in the file, so it is not held against the code (round 6: a counterexample in that region did not
+    reproduce on the real package)."""
+    return got == want or (got in _INT_SIZE and want in _INT_SIZE and _INT_SIZE[got] == _INT_SIZE[want])
+
+
 def shared_dataset_check(dtS, castA, castB, n, chunk, kind):
     """Channels A and B of one frame read the same data set (dataset_name re-assigned; HDF5 / dict / structured source)
     with different casts: every record has one slot per channel, each slot holds the SOURCE column cast directly to
@@ -319,8 +330,8 @@ def shared_dataset_check(dtS, castA, castB, n, chunk, kind):
         fa, fb = fl['A'], fl['B']
         if fa.column != 'colS' or fb.column != 'colS':
             return 3
-        if fa.dt.name != wantA or fb.dt.name != wantB:
-            return 4                       # slot dtype is not the channel's own
+        if not _same_bytes(fa.dt.name, wantA) or not _same_bytes(fb.dt.name, wantB):
+            return 4                       # slot dtype is not the channel's own (and the bytes can differ)
         for f in (fa, fb):
             if f.src_dt is not None and f.src_dt.name != h.DT_NAMES[dtS]:
                 return 5                   # cast through another channel's dtype instead of from the source
@@ -697,23 +708,44 @@ def reach_setup_taint(kind: int, n: int, cast: int, has_type: bool, anymask: boo
     return setup_taint_check(kind, n, cast, has_type, anymask)
 
 
+LL_NS = (9, 12, 63, 64, 65, 128, 257, 1025) + ((127, 129, 255, 256, 4097, 16384, 16385, 65537) if THOROUGH else ())
+
+
+def _ll_n(n):
+    """List lengths of the boundary-window obligation: just above the small-list region, and around the powers of two
+    at which an encoder could switch strategy (round 6: a bulk conversion from 64 values on)."""
+    for v in LL_NS:
+        if n == v:
+            return True
+    return False
+
+
+def _ll_run(n, pos, x):
+    # all three are concrete here; the long lists run outside the tracer (a traced 1000-element encode + parse costs
+    # seconds per case and decides nothing more: there is no symbolic value left)
+    if n > 12:
+        with untraced():
+            return long_list_check(n, pos, x, 0)
+    return long_list_check(n, pos, x, 0)
+
+
 LL_EDGES = [-2147483648, 2147483647, 4294967296, -4294967296, 1099511627776, 9223372036854775807, -9223372036854775808, 0]
 
 
 def ob_long_list_edges(n: int, pos: int, k: int, d: int) -> int:
     """
     Boundary windows with concrete values (an encoder that hands the list to a C-level routine makes the symbolic
-    obligation inconclusive): list lengths 9 and 12, first or last element = edge + d.
-    pre: (n == 9 or n == 12) and (pos == 0 or pos == n - 1) and 0 <= k < 8 and -2 <= d <= 2
+    obligation inconclusive): list lengths LL_NS (9 .. 1025, thorough .. 65537), first or last element = edge + d.
+    pre: _ll_n(n) and (pos == 0 or pos == n - 1) and 0 <= k < 8 and -2 <= d <= 2
     pre: SHARD_N == 1 or k == SHARD_I % 8
     post: _ == 0
     """
-    return long_list_check(_realize(n), _realize(pos), _realize(LL_EDGES[_realize(k)] + _realize(d)), 0)
+    return _ll_run(_realize(n), _realize(pos), _realize(LL_EDGES[_realize(k)] + _realize(d)))
 
 
 def reach_long_list_edges(n: int, pos: int, k: int, d: int) -> int:
     """
-    pre: (n == 9 or n == 12) and (pos == 0 or pos == n - 1) and 0 <= k < 8 and -2 <= d <= 2
+    pre: _ll_n(n) and (pos == 0 or pos == n - 1) and 0 <= k < 8 and -2 <= d <= 2
     post: _ != 0
     """
-    return long_list_check(_realize(n), _realize(pos), _realize(LL_EDGES[_realize(k)] + _realize(d)), 0)
+    return _ll_run(_realize(n), _realize(pos), _realize(LL_EDGES[_realize(k)] + _realize(d)))
